@@ -6,7 +6,7 @@ from pyvc.engine import FnSpec
 from .lib import REG, S, forall, dom, val, lst, attr, qforall
 
 DPOS = z3.Function("ghost_dict_pos", I, I, I)  # (dict, key) -> position in insertion order
-PIDX = z3.Function("ghost_param_index", I, I, I)  # (name list, name) -> index
+from pyvc.base import LIST_INDEX as PIDX  # (name list, name) -> index
 
 
 def wf_dict(st, d):
